@@ -13,7 +13,7 @@
       the equation of state  pHighT eHighT wHighT csqLowT ... : R -> R  (fields of [env]);
       scipy: the point returned by root / brentq is a zero of the residual. *)
 From Coq Require Import Reals Lra Psatz.
-From WG Require Import Lib.NumpySem Lib.HydroMatch.
+From WG Require Import Lib.NumpySem Lib.HydroMatch Lib.HydroMatchTemplate.
 From GenC02 Require Import HydroGen.
 Local Open Scope R_scope.
 
@@ -331,6 +331,84 @@ Qed.
 
 End C02.
 
+(** ** the closed-form template solver (HydrodynamicsTemplateModel), for EVERY template
+    object: T- comes from conservation of the energy flux, with the enthalpies the class
+    itself uses (w+ = wN (T/Tn)^mu in findHydroBoundaries/efficiencyFactor, w- = wN psiN
+    (T/Tn)^nu); momentum conservation on the template equation of state is C15 *)
+Section TemplateClass.
+Variable e : t_env.
+Hypothesis HTn : 0 < t_Tnucl e.
+Hypothesis Hpsi : 0 < t_psiN e.
+Hypothesis Hmu : 0 < t_mu e.
+Hypothesis Hnu : 0 < t_nu e.
+Definition t_wHigh (T : R) := t_wN e * Rpower (T / t_Tnucl e) (t_mu e).
+Definition t_wLow (T : R) := t_wN e * t_psiN e * Rpower (T / t_Tnucl e) (t_nu e).
+Definition t_energy_conserved (vp vm Tp Tm : R) : Prop :=
+  t_wHigh Tp * gammaSq vp * vp = t_wLow Tm * gammaSq vm * vm.
+
+Theorem template_findTm_conserves_energy vp vm Tp :
+  0 < vp < 1 -> 0 < vm < 1 -> 0 < Tp ->
+  0 < t__findTm e vm vp Tp /\ t_energy_conserved vp vm Tp (t__findTm e vm vp Tp).
+Proof.
+  intros Hp Hm HT.
+  pose proof (findTm_energy_flux_gen (t_wN e) (t_Tnucl e) (t_psiN e) (t_mu e) (t_nu e)
+                vp vm Tp HTn Hpsi Hmu Hnu Hp Hm HT) as F.
+  cbv zeta in F. destruct F as [F1 F2]. unfold eflux in F2.
+  unfold t_energy_conserved, t_wHigh, t_wLow, t__findTm. cbv zeta.
+  rewrite !gammaSq_is_g2. split; assumption.
+Qed.
+
+(** what template.findMatching returns (deflagration / hybrid branch), for any shooting root *)
+Theorem template_matching_conserves_energy vw vp vp' vm Tp Tm :
+  ~ t_vJ e < vw -> 0 < vp < 1 -> 0 < Rmin (t_cb e) vw < 1 ->
+  t_findMatching_result e vw vp = (vp', vm, Tp, Tm) ->
+  vp' = vp /\ vm = Rmin (t_cb e) vw /\ 0 < Tp /\ 0 < Tm /\ t_energy_conserved vp' vm Tp Tm.
+Proof.
+  intros HvJ Hp Hm Hres. unfold t_findMatching_result in Hres.
+  destruct (Rlt_dec (t_vJ e) vw) as [?|_]; [contradiction|]. cbv zeta in Hres.
+  apply tuple4_eq in Hres. destruct Hres as (E1 & E2 & E3 & E4).
+  assert (HTp : 0 < Tp) by (rewrite <- E3; apply Rmult_lt_0_compat; [exact HTn|apply exp_pos]).
+  rewrite E3 in E4. subst vp' vm.
+  destruct (template_findTm_conserves_energy vp (Rmin (t_cb e) vw) Tp Hp Hm HTp) as [F1 F2].
+  rewrite E4 in F1, F2. repeat split; assumption.
+Qed.
+
+(** what template.detonationVAndT returns *)
+Theorem template_deton_conserves_energy vw vp vm Tp Tm :
+  0 < vw < 1 -> t_detonationVAndT e vw = (vp, vm, Tp, Tm) -> 0 < vm < 1 ->
+  vp = vw /\ Tp = t_Tnucl e /\ 0 < Tm /\ t_energy_conserved vp vm Tp Tm.
+Proof.
+  intros Hw Hres Hm. unfold t_detonationVAndT in Hres. cbv zeta in Hres.
+  apply tuple4_eq in Hres. destruct Hres as (E1 & E2 & E3 & E4).
+  subst vp Tp. rewrite E2 in E4.
+  destruct (template_findTm_conserves_energy vw vm (t_Tnucl e) Hw Hm HTn) as [F1 F2].
+  rewrite E4 in F1, F2. repeat split; assumption.
+Qed.
+
+(** c1 = -(energy flux in front) with the same enthalpy; Tp, Tm, vMid passed on *)
+Theorem template_boundary_constants vw vp vm Tp Tm c1 c2 Tp' Tm' vmid :
+  ~ vw < t_vMin e -> 0 < vp < 1 ->
+  t_findHydroBoundaries e vw vp vm Tp Tm = (c1, c2, Tp', Tm', vmid) ->
+  c1 = - (t_wHigh Tp * gammaSq vp * vp) /\
+  c2 = (t_pN e + (Rpower (Tp / t_Tnucl e) (t_mu e) - 1) * t_wN e / t_mu e)
+       + t_wHigh Tp * gammaSq vp * vp ^ 2 /\
+  Tp' = Tp /\ Tm' = Tm /\ vmid = - ((vp + vm) / 2) /\
+  (t_energy_conserved vp vm Tp Tm -> c1 = - (t_wLow Tm * gammaSq vm * vm)).
+Proof.
+  intros Hv Hp H. unfold t_findHydroBoundaries in H.
+  destruct (Rlt_dec vw (t_vMin e)) as [?|_]; [contradiction|]. cbv zeta in H.
+  apply tuple5_eq in H. destruct H as (H1 & H2 & H3 & H4 & H5). subst Tp' Tm'.
+  assert (G : 1 - vp ^ 2 <> 0) by nra. assert (G' : 1 - vp * vp <> 0) by nra.
+  assert (A1 : c1 = - (t_wHigh Tp * gammaSq vp * vp)).
+  { subst c1. unfold t_wHigh, gammaSq. field; repeat split; first [assumption|lra]. }
+  repeat split; try reflexivity; try assumption.
+  - subst c2. unfold t_wHigh, gammaSq. field; repeat split; first [assumption|lra].
+  - subst vmid. field.
+  - intro C. rewrite A1, C. reflexivity.
+Qed.
+End TemplateClass.
+
+
 (** the hypotheses are satisfiable: a bag-like equation of state with an exact matching *)
 Example hypotheses_satisfiable :
   exists (e : env) vp vm Tp Tm,
@@ -445,3 +523,39 @@ Theorem C02_hypotheses_satisfiable :
     0 < vp < 1 /\ 0 < vm < 1 /\ admissible e Tp Tm /\ conserved e vp vm Tp Tm.
 Proof. exact hypotheses_satisfiable. Qed.
 Print Assumptions C02_hypotheses_satisfiable.
+
+Theorem C02_template_findTm_conserves_energy : forall e : t_env,
+  0 < t_Tnucl e -> 0 < t_psiN e -> 0 < t_mu e -> 0 < t_nu e ->
+  forall vp vm Tp, 0 < vp < 1 -> 0 < vm < 1 -> 0 < Tp ->
+  0 < t__findTm e vm vp Tp /\ t_energy_conserved e vp vm Tp (t__findTm e vm vp Tp).
+Proof. exact template_findTm_conserves_energy. Qed.
+Print Assumptions C02_template_findTm_conserves_energy.
+
+Theorem C02_template_matching_conserves_energy : forall e : t_env,
+  0 < t_Tnucl e -> 0 < t_psiN e -> 0 < t_mu e -> 0 < t_nu e ->
+  forall vw vp vp' vm Tp Tm,
+  ~ t_vJ e < vw -> 0 < vp < 1 -> 0 < Rmin (t_cb e) vw < 1 ->
+  t_findMatching_result e vw vp = (vp', vm, Tp, Tm) ->
+  vp' = vp /\ vm = Rmin (t_cb e) vw /\ 0 < Tp /\ 0 < Tm /\ t_energy_conserved e vp' vm Tp Tm.
+Proof. exact template_matching_conserves_energy. Qed.
+Print Assumptions C02_template_matching_conserves_energy.
+
+Theorem C02_template_deton_conserves_energy : forall e : t_env,
+  0 < t_Tnucl e -> 0 < t_psiN e -> 0 < t_mu e -> 0 < t_nu e ->
+  forall vw vp vm Tp Tm,
+  0 < vw < 1 -> t_detonationVAndT e vw = (vp, vm, Tp, Tm) -> 0 < vm < 1 ->
+  vp = vw /\ Tp = t_Tnucl e /\ 0 < Tm /\ t_energy_conserved e vp vm Tp Tm.
+Proof. exact template_deton_conserves_energy. Qed.
+Print Assumptions C02_template_deton_conserves_energy.
+
+Theorem C02_template_boundary_constants : forall (e : t_env), 0 < t_mu e ->
+  forall vw vp vm Tp Tm c1 c2 Tp' Tm' vmid,
+  ~ vw < t_vMin e -> 0 < vp < 1 ->
+  t_findHydroBoundaries e vw vp vm Tp Tm = (c1, c2, Tp', Tm', vmid) ->
+  c1 = - (t_wHigh e Tp * gammaSq vp * vp) /\
+  c2 = (t_pN e + (Rpower (Tp / t_Tnucl e) (t_mu e) - 1) * t_wN e / t_mu e)
+       + t_wHigh e Tp * gammaSq vp * vp ^ 2 /\
+  Tp' = Tp /\ Tm' = Tm /\ vmid = - ((vp + vm) / 2) /\
+  (t_energy_conserved e vp vm Tp Tm -> c1 = - (t_wLow e Tm * gammaSq vm * vm)).
+Proof. exact template_boundary_constants. Qed.
+Print Assumptions C02_template_boundary_constants.
